@@ -4449,6 +4449,43 @@ func collidingCarriers() []carrierFrame {
 	return out
 }
 
+// emptyKeyFrames: valid frames of every type with a property section whose user properties
+// include an empty key, an empty value, or both, before, between and after ordinary ones.
+func emptyKeyFrames() []string {
+	str := func(s string) []byte { return append([]byte{byte(len(s) >> 8), byte(len(s))}, s...) }
+	up := func(k, v string) []byte { return append(append([]byte{0x26}, str(k)...), str(v)...) }
+	sect := func(props []byte) []byte { return append(vbEnc(uint64(len(props))), props...) }
+	frame := func(b0 byte, body []byte) string {
+		return hexs(append(append([]byte{b0}, vbEnc(uint64(len(body)))...), body...))
+	}
+	var out []string
+	for _, props := range [][]byte{
+		up("", "2"), up("", ""), up("k", ""),
+		append(append(up("k", "1"), up("", "2")...), up("k", "3")...),
+		append(up("", "2"), up("k", "1")...),
+		append(up("k", "1"), up("", "")...),
+	} {
+		sec := sect(props)
+		out = append(out,
+			frame(0x20, append([]byte{0, 0}, sec...)),
+			frame(0x30, append(append([]byte{0, 1, 't'}, sec...), 'p')),
+			frame(0x40, append([]byte{0, 9, 0x10}, sec...)),
+			frame(0x50, append([]byte{0, 9, 0x10}, sec...)),
+			frame(0x62, append([]byte{0, 9, 0x92}, sec...)),
+			frame(0x70, append([]byte{0, 9, 0x92}, sec...)),
+			frame(0x82, append(append([]byte{0, 9}, sec...), 0, 1, 'f', 1)),
+			frame(0x90, append(append([]byte{0, 9}, sec...), 1)),
+			frame(0xa2, append(append([]byte{0, 9}, sec...), 0, 1, 'f')),
+			frame(0xb0, append(append([]byte{0, 9}, sec...), 0)),
+			frame(0xe0, append([]byte{0}, sec...)),
+			frame(0xf0, append([]byte{0x18}, sec...)),
+			frame(0x10, append(append([]byte{0, 4, 'M', 'Q', 'T', 'T', 5, 2, 0, 9}, sec...), 0, 1, 'c')),
+			frame(0x10, append(append([]byte{0, 4, 'M', 'Q', 'T', 'T', 5, 6, 0, 9, 0, 0, 1, 'c'}, sec...), 0, 1, 'w', 0, 1, 'p')),
+		)
+	}
+	return out
+}
+
 func oracleC03(r *report, g *G, n int, single string) {
 	check := func(hexFrame, want, self, tag string) {
 		c := "SR " + hexFrame
@@ -4531,8 +4568,10 @@ func oracleC03(r *report, g *G, n int, single string) {
 		}
 	}
 	// strings that collide under common hash functions, decoded one after the other in this
-	// process: each frame still gives the values it carries (judged by the specification decoder)
-	cf := collidingFrames()
+	// process: each frame still gives the values it carries (judged by the specification decoder);
+	// and user properties with an empty key or an empty value (legal on the wire, never written by
+	// the library's own encoder) in every position, for every type that carries user properties
+	cf := append(collidingFrames(), emptyKeyFrames()...)
 	var in strings.Builder
 	for _, h := range cf {
 		in.WriteString("SD " + h + "\n")
